@@ -1,12 +1,13 @@
 #!/bin/bash
-# fourth seed round: confirm /var/tmp/seed4/<ID>/<k> in its scratch worktree /var/tmp/wt4-<ID> (suite passes with the
+# fourth and later seed rounds (ROUND=4|5): confirm /var/tmp/seed$R/<ID>/<k> in its scratch worktree /var/tmp/wt$R-<ID> (suite passes with the
 # change, demo fails with it and passes without), then run the property's quick check on a scratch copy of /repo
 # with the patch applied.   usage: seed4test.sh [ID/k ...]
 export GOFLAGS=-mod=mod GOPROXY=off GOSUMDB=off GOTOOLCHAIN=local
-cd /var/tmp/seed4
+R=${ROUND:-4}
+cd /var/tmp/seed$R
 for sk in ${*:-$(ls -d C*/[0-9]* 2>/dev/null)}; do
-  d=/var/tmp/seed4/$sk; id=${sk%%/*}; k=${sk##*/}
-  wt=/var/tmp/wt4-$id
+  d=/var/tmp/seed$R/$sk; id=${sk%%/*}; k=${sk##*/}
+  wt=/var/tmp/wt$R-$id
   [ -f $d/patch.diff ] && [ -d $wt ] || { echo "$sk: missing"; continue; }
   git -C $wt checkout -q -- . ; git -C $wt clean -fdq
   pkgdir=$wt; grep -q '^package testdirectory' $d/demo_test.go && pkgdir=$wt/testdirectory
@@ -20,7 +21,7 @@ for sk in ${*:-$(ls -d C*/[0-9]* 2>/dev/null)}; do
   conf="confirmed"; { [ $without -eq 0 ] && [ $with -ne 0 ] && [ $suite -eq 0 ]; } || conf="NOT-CONFIRMED(without=$without,with=$with,suite=$suite)"
   S=/var/tmp/govc.seed4.$$; rm -rf $S; mkdir -p $S; rsync -a --exclude .git /repo/ $S/
   if (cd $S && patch -p1 -s < $d/patch.diff); then
-    out=$(cd /verif && timeout 1200 bin/govc check -prop $id -tier quick -repo $S -no-evidence -replays /var/tmp/seed4-replays/$id-$k 2>&1 | grep -E "^VIOLATION|^govc:" )
+    out=$(cd /verif && timeout 1200 bin/govc check -prop $id -tier quick -repo $S -no-evidence -replays /var/tmp/seed$R-replays/$id-$k 2>&1 | grep -E "^VIOLATION|^govc:" )
     nv=$(echo "$out" | grep -c '^VIOLATION')
     det="violations=$nv $(echo "$out" | grep '^govc:' | cut -c1-140)"
   else det="patch does not apply to the current /repo"; fi
